@@ -395,6 +395,27 @@ def features(stmts, files):
     return f
 
 
+def run_on_terminal(sb, script, args, root, timeout=60.0):
+    """the same run with a pseudo-terminal as the shell's stdin, stdout and stderr"""
+    import time
+    import types
+    import ptydrv
+    s = ptydrv.PtySession(sb, env_extra={"VPROOT": root}, cwd=root, args=[script] + list(args))
+    end = time.time() + timeout
+    while s.alive() and time.time() < end:
+        s._read(0.2)
+    timed_out = s.alive()
+    while s._read(0.05):
+        pass
+    st = s.exited
+    out = s.all
+    s.close()
+    rc = None
+    if not timed_out and st is not None and st >= 0:
+        rc = os.WEXITSTATUS(st) if os.WIFEXITED(st) else -os.WTERMSIG(st)
+    return types.SimpleNamespace(rc=rc, err=out, out=b"", timed_out=timed_out, diag=None, pid=s.pid)
+
+
 def judge(case):
     sb = _sb
     sb.clean_work()
@@ -429,6 +450,9 @@ def judge(case):
         conds(body)
     script = os.path.join(root, "main.sh")
     text = "\n".join(render(stmts)) + "\n"
+    if case.get("terminal"):
+        # the script runs on a terminal and starts a background command first: the shell keeps a job table then
+        text = "vp_job BG 0.05 bg &\n" + text
     with open(script, "w") as f:
         f.write(text)
     m = Model(script, args, files, root)
@@ -438,7 +462,10 @@ def judge(case):
         exp_rc = m.status
     except Exit as e:
         exp_rc = e.code
-    r = run_cicada(sb, [script] + args, timeout=60.0, cwd=root, env_extra={"VPROOT": root})
+    if case.get("terminal"):
+        r = run_on_terminal(sb, script, args, root)
+    else:
+        r = run_cicada(sb, [script] + args, timeout=60.0, cwd=root, env_extra={"VPROOT": root})
     res = {"script": text, "args": args, "files": {k: "\n".join(render(v)) for k, v in files.items()}, "rc": r.rc,
            "expected_rc": exp_rc, "stderr": r.err.decode("utf-8", "replace")[-300:]}
     if r.timed_out:
@@ -447,7 +474,7 @@ def judge(case):
         return ("violated", "C15:shell-crash", res)
     got = []
     for x in sb.records():
-        if x["kind"] != "start":
+        if x["kind"] != "start" or x["name"] == "vp_job":
             continue
         if x["name"] == "vp_argv" and x["argv"][1:2] and x["argv"][1].startswith("C") and len(x["argv"]) == 2:
             got.append(("cwd", [x["argv"][1], x["cwd"]]))
@@ -480,9 +507,9 @@ def judge(case):
         feats = features(stmts, files)
         ctx = "+".join(sorted(x for x in feats if x.endswith(("-in-func", "-in-source")) or x in ("sete-in-top", "exit-in-top", "ifblock-in-top")))
         res["divergence_at"] = i
-        return ("violated", "C15:events-diverge:expected-%s-observed-%s%s" % (what, kind(he), detail), res)
+        return ("violated", "C15:events-diverge:expected-%s-observed-%s%s%s" % (what, kind(he), detail, ":on-a-terminal-with-a-background-job" if case.get("terminal") else ""), res)
     if r.rc != exp_rc:
-        return ("violated", "C15:exit-status", res)
+        return ("violated", "C15:exit-status" + (":on-a-terminal-with-a-background-job" if case.get("terminal") else ""), res)
     return ("held", None, res)
 
 
@@ -491,7 +518,10 @@ def gen_case(rng):
     special = rng.random() < 0.4
     args = [rng.choice(ARGS_POOL if special else ["a1", "b2", "c3", "d4", "e5"]) for _ in range(rng.randint(0, 5))]
     stmts = g.top(special, 0 if special else len(args))
-    return {"stmts": stmts, "files": g.files, "args": args, "special_args": special}
+    c = {"stmts": stmts, "files": g.files, "args": args, "special_args": special}
+    if rng.random() < 0.06:
+        c["terminal"] = True
+    return c
 
 
 def _retuple(x):
@@ -517,7 +547,7 @@ def run(tier, seed):
     rep = Report("C15", tier, seed)
     rep.rule = ("generated scripts with 0..5 arguments (plain, or with blanks / * / ' / ; / = / empty), 0..3 functions "
                 "(both header spellings, names with - and _); probes come in three spellings (parameters alone, after a single-quoted word that contains parameter syntax, inside longer double-quoted text) called with 0..4 arguments, source chains to depth 3 that "
-                "set variables, define functions, cd and run commands, exit N, set -e, failing commands, if blocks; "
+                "set variables, define functions, cd and run commands, exit N, set -e, failing commands, if blocks; 6% of the scripts run on a pseudo-terminal after starting a background command (the shell keeps a job table then); "
                 "probes of \"$0\" \"$1\" \"${2}\" \"$@\" and $? in the script, in function bodies and in sourced files.  "
                 "Non-trivial = always; distinct by script + files + args.")
     rep.assumptions = ["reference model in lib/c15.py of docs/scripting.md + the statement", "\"$@\" is the arguments joined by one blank"]
